@@ -946,3 +946,121 @@ func WindowEdge(r *gen.Rand, delta, j, k int, tinyFinal bool, withMatch bool) (s
 	}
 	return s.W.Bytes(), s.Plain, fmt.Sprintf("window-edge(delta=%d j=%d k=%d final=%v match=%v)", delta, j, k, tinyFinal, withMatch)
 }
+
+// MaxHeader builds a dynamic block whose header has the greatest possible
+// length, 2286 bits (17 + 19x3 + 316x7): HLIT=29, HDIST=29, HCLEN=15, every one
+// of the 316 code lengths sent literally (no repeat codes) with a 7-bit
+// code-length code. The lit/len code uses lengths 8 and 9 (226 + 60 symbols),
+// the distance code 4 and 5 (2 + 28): four length values, which get the four
+// 7-bit codes of the code-length code {1,2,3,4,5,7,7,7,7}; its shorter codes go
+// to length values that never occur. lead stored bytes come first.
+func MaxHeader(r *gen.Rand, lead int, final bool) (stream, plain []byte, desc string) {
+	s := NewStream(r)
+	if lead > 0 {
+		for left := lead; left > 0; {
+			n := left
+			if n > 65535 {
+				n = 65535
+			}
+			s.Stored(false, r.Bytes(n))
+			left -= n
+		}
+	}
+	perm := r.Perm(286)
+	lit := make([]int, 286)
+	for i, sy := range perm {
+		if i < 226 {
+			lit[sy] = 8
+		} else {
+			lit[sy] = 9
+		}
+	}
+	dperm := r.Perm(30)
+	dist := make([]int, 30)
+	for i, sy := range dperm {
+		if i < 2 {
+			dist[sy] = 4
+		} else {
+			dist[sy] = 5
+		}
+	}
+	cl := make([]int, 19)
+	cl[8], cl[9], cl[4], cl[5] = 7, 7, 7, 7
+	// shorter codes to length values that do not occur (and not to 16/17/18 either way)
+	unused := []int{0, 1, 2, 3, 6, 7, 10, 11, 12, 13, 14, 15, 16, 17, 18}
+	up := r.Perm(len(unused))
+	for k, l := range []int{1, 2, 3, 4, 5} {
+		cl[unused[up[k]]] = l
+	}
+	sp := NewDynSpec()
+	sp.LitLens, sp.DistLens = lit, dist
+	sp.RLE, sp.NoTrim, sp.CLLens = "none", true, cl
+	toks := RandomTokens(r, len(s.Plain), r.Range(0, 400), "mixed")
+	s.Dynamic(final, toks, sp, true)
+	if !final {
+		s.Fixed(true, RandomTokens(r, len(s.Plain), r.Range(0, 100), "mixed"), true)
+	}
+	if !s.Valid {
+		panic("synth: MaxHeader invalid")
+	}
+	return s.W.Bytes(), s.Plain, fmt.Sprintf("max-header(lead=%d) %v", lead, s.Desc)
+}
+
+// MatchEdge builds a small stream (a few hundred bytes, so that every split
+// point can be tried) in which a packed "literal(s) + long match" table entry
+// of a short-code dynamic block starts exactly 258+delta bytes before the
+// output reaches 65536 + k*32768: the decoder's fast loop, which checks the
+// output limit only between table entries, runs closest to the end of its
+// window there.
+func MatchEdge(r *gen.Rand, delta, nlit, mlen, k int) (stream, plain []byte, desc string) {
+	s := NewStream(r)
+	P := 65536 + k*32768 - 258 - delta
+	// compressible filler: one literal and maximal matches at distance 1
+	toks := []Token{Lit('a')}
+	for left := P - 1; left > 0; {
+		l := 258
+		if left < l {
+			l = left
+		}
+		if l < 3 {
+			for ; left > 0; left-- {
+				toks = append(toks, Lit('a'))
+			}
+			break
+		}
+		if left-l > 0 && left-l < 3 {
+			l -= 3
+		}
+		toks = append(toks, Match(l, 1))
+		left -= l
+	}
+	// same block as the edge entry (oneBlock): the fast loop is entered at the
+	// start of a block and only re-checks its limits between table entries
+	oneBlock := r.Chance(3, 4)
+	var t2 []Token
+	if oneBlock {
+		t2 = toks
+	} else {
+		s.Fixed(false, toks, true)
+	}
+	for i := 0; i < nlit; i++ {
+		t2 = append(t2, Lit('b'))
+	}
+	t2 = append(t2, Match(mlen, 1))
+	for i := r.Range(0, 6); i > 0; i-- {
+		t2 = append(t2, Lit(byte('b'+r.Intn(2))), Match(r.Pick(258, 257, 100), r.Pick(1, 2)))
+	}
+	lit, dist := LengthsFor(r, t2, CodeOpts{MaxLit: r.Range(2, 4), MaxDist: r.Range(1, 2), Shape: "flat"})
+	sp := NewDynSpec()
+	sp.LitLens, sp.DistLens = lit, dist
+	s.Dynamic(false, t2, sp, true)
+	// a sync-flush-like empty stored block and a short tail, as an encoder would leave
+	if r.Bool() {
+		s.Stored(false, nil)
+	}
+	s.Fixed(true, RandomTokens(r, len(s.Plain), r.Range(0, 20), "lits"), true)
+	if !s.Valid {
+		panic("synth: MatchEdge invalid")
+	}
+	return s.W.Bytes(), s.Plain, fmt.Sprintf("match-edge(delta=%d nlit=%d mlen=%d k=%d oneblock=%v)", delta, nlit, mlen, k, oneBlock)
+}
